@@ -11,3 +11,5 @@ pub mod configs;
 pub mod markup;
 pub mod schemas;
 pub mod scope_frag;
+pub mod history;
+pub mod workspace;
